@@ -1,13 +1,12 @@
 #!/bin/bash
-# Offline setup: build every check once (warms GOCACHE with /repo's packages).
+# Offline setup: build every registered check once (warms GOCACHE with /repo's packages).
 set -u
 cd "$(dirname "$(readlink -f "$0")")"
 export GOFLAGS=-mod=mod GOPROXY=off GOSUMDB=off GOTOOLCHAIN=local
 mkdir -p bin evidence replays
 cp -f /repo/go.sum go.sum.repo 2>/dev/null && cat go.sum.repo go.sum 2>/dev/null | sort -u > go.sum.new && mv go.sum.new go.sum; rm -f go.sum.repo
 fail=0
-for d in checks/*/; do
-  n=$(basename "$d")
+for n in $(python3 -c "import json;print(' '.join(c['property_id'].lower() for c in json.load(open('MANIFEST.json'))['checks']))"); do
   ./build.sh "$n" || fail=1
 done
 [ -x setup_extra.sh ] && ./setup_extra.sh
